@@ -25,7 +25,7 @@ fn spec() -> Spec {
             Kind { name: "paths", quick: 1_000, thorough: 25_000, serial: false },
             Kind { name: "cancel", quick: 150, thorough: 6_000, serial: false },
         ],
-        rule: "paths: synthetic cell (coarse meshes, non-wrapping limits) x collision-free start/goal pairs in the layouts free space / obstacle placed on the straight joint-space line between them / goal within one step of the start / tiny try budget, step sizes 2..12 degrees; every scenario is planned repeatedly (thread_rng cannot be seeded) and each returned path is checked offline: exact endpoints, every node reported free, hops <= 3 steps, nodes within limits, and provenance: every interior node must appear in the spy log as a collision query made by the planner. cancel: flag raised before the call => Err for each of three calls sharing the flag; after an interrupted call a second call sharing the still raised flag => Err; flag raised by the spy at the k-th collision query (k swept) => no sampling event (constraints() call) may follow the raise and the result is Err unless the iteration in progress completed the connection. non-trivial = path with >= 3 nodes (paths) / cancellation that actually interrupted planning (cancel); distinct = hash(path)",
+        rule: "paths: synthetic cell (coarse meshes, non-wrapping limits) x collision-free start/goal pairs in the layouts free space / obstacle placed on the straight joint-space line between them / goal within one step of the start / tiny try budget, step sizes 2..12 degrees; every scenario is planned repeatedly (thread_rng cannot be seeded) and each returned path is checked offline: exact endpoints, every node reported free, hops <= 3 steps, nodes within limits, and provenance: every interior node must appear in the spy log as a collision query made by the planner. cancel: flag raised before the call => Err for each of three calls sharing the flag; after an interrupted call a second call sharing the still raised flag => Err; flag raised by the spy at the k-th collision query (k swept) => no sampling event (constraints() call) may follow the raise and the result is Err unless the iteration in progress completed the connection. non-trivial = path with >= 3 nodes (paths) / cancellation that actually interrupted planning (cancel); distinct = hash(path) Workload additions: one raised flag shared by consecutive calls; goals one ulp / 1e-12 rad / a degree round trip from the start; layouts tiny_cell (box hugging a straight start-goal segment of 3..3.6 steps, 250 plannings per scene), no_environment (only the robot's own base in the way), narrow_limits planned 12 times per scene.",
         assumptions: vec![
             "the planner polls the flag once per iteration: 'no sampling after the raise' is the strongest form that is not racy against its own check point",
             "'reported free' is the same robot's collides()",
@@ -106,6 +106,14 @@ fn gen_scene(rng: &mut Rng, idx: u64) -> Option<Scene> {
         cell.constraints = Constraints::new([-3.0; 6], [3.0; 6], 0.0);
         let j = rng.usize(6);
         goal[j] += if goal[j] > 0.0 { -2.0 * std::f64::consts::PI } else { 2.0 * std::f64::consts::PI };
+        // half of these cells leave one OTHER joint unlimited (from == to): the limits of the rest still hold
+        if rng.bool(0.5) {
+            let k = (j + 1 + rng.usize(5)) % 6;
+            let (mut lf, mut lt) = ([-3.0; 6], [3.0; 6]);
+            lf[k] = 0.0;
+            lt[k] = 0.0;
+            cell.constraints = Constraints::new(lf, lt, 0.0);
+        }
     }
     if layout == "tiny_cell" {
         // start and goal 3 .. 3.6 planner steps apart inside a box that hugs the straight segment (0.1 .. 0.4 step of
@@ -178,6 +186,26 @@ fn gen_scene(rng: &mut Rng, idx: u64) -> Option<Scene> {
         let r2 = cell.build();
         if r2.collides(&start) || r2.collides(&goal) {
             cell.env.pop();
+        }
+    }
+    // a tenth of the scenes: the start (or the goal) lies 1e-12 .. 9e-11 rad BEYOND one of its limits - still accepted
+    // by the limits' own boundary slack; the path must nevertheless begin / end with the given vector bit for bit
+    if rng.bool(0.1) && layout != "goal_turn_away" {
+        let c = cell.constraints;
+        let j = rng.usize(6);
+        if c.from[j] < c.to[j] && c.to[j] - c.from[j] < 6.0 {
+            let (mut lf, mut lt) = (c.from, c.to);
+            let d = rng.logu(1e-12, 9e-11);
+            match rng.usize(4) {
+                0 => lf[j] = start[j] + d,
+                1 => lt[j] = start[j] - d,
+                2 => lf[j] = goal[j] + d,
+                _ => lt[j] = goal[j] - d,
+            }
+            let c2 = Constraints::new(lf, lt, 0.0);
+            if lf[j] < lt[j] && c2.compliant(&start) && c2.compliant(&goal) {
+                cell.constraints = c2;
+            }
         }
     }
     let max_try = if layout == "tiny_budget" { 1 + rng.usize(4) } else { 300 + rng.usize(500) };
